@@ -1,4 +1,1 @@
 package verifsim
-
-func genC10(seed int64, tier string) *Plan { return &Plan{Prop: "C10", Engine: "E5", Seed: seed, Cfg: map[string]int{}} }
-func runC10(p *Plan, res *Result)          {}
